@@ -1343,9 +1343,7 @@ func (r *run) boundaryCase(rng *rand.Rand, k, d int) {
 	r.opPutFailIdx(lit(randBytes(rng, 6)))
 	r.opGet(r.q.AppendedSeq())
 	r.opGet(0)
-	r.opPut(lit(randBytes(rng, 4)))
-	r.opGet(r.q.AppendedSeq())
-	n = int(r.q.AppendedSeq()) + 1
+	n = int(r.q.AppendedSeq()) + 1 // d = 0: still k*itemsPerPage, the reopen below is exactly at the boundary
 	r.opReopen()
 	r.opPut(lit(randBytes(rng, 3)))
 	r.opGet(0)
